@@ -352,3 +352,79 @@ type verifC03EmptyItems struct {
 	F []struct{}
 	X int64
 }
+
+type verifC04Tail struct {
+	Z int64
+}
+
+type verifC04Full struct {
+	F []int64
+	M map[string]int64
+	Z int64
+}
+
+// C04 / C03: a collection written as several blocks of which some carry a
+// byte size and some do not, in every order (sized-plain, plain-sized, ...).
+// Skipping it (the target lacks the field) consumes exactly what decoding it
+// does: the field after it arrives intact, and decoding yields all the items.
+func verifHarness_C04_mixed_blocks() {
+	verifAllocMax(64)
+	s, err := SchemaForType(verifC04Full{})
+	verifAssume(err == nil)
+	cfull, err := s.Codec(verifC04Full{})
+	verifAssume(err == nil)
+	ctail, err := s.Codec(verifC04Tail{})
+	verifAssume(err == nil)
+	nblocks := 2 + verifChoice("blocks", 2)
+	block := func(tag string, isMap bool) (enc []byte, n int) {
+		for b := 0; b < nblocks; b++ {
+			k := 1 + verifChoice(tag+".items", 2)
+			var body []byte
+			for i := 0; i < k; i++ {
+				if isMap {
+					body = append(body, 2, byte('a'+n))
+				}
+				body = append(body, refZZ(int64(verifSmall(tag)))...)
+				n++
+			}
+			if verifChoice(tag+".sized", 2) == 1 {
+				enc = append(enc, refZZ(-int64(k))...)
+				enc = append(enc, refZZ(int64(len(body)))...)
+			} else {
+				enc = append(enc, refZZ(int64(k))...)
+			}
+			enc = append(enc, body...)
+		}
+		return append(enc, 0), n
+	}
+	var enc []byte
+	arr, na := block("F", false)
+	enc = append(enc, arr...)
+	nm := 0
+	if verifChoice("with-map", 2) == 1 {
+		var m []byte
+		m, nm = block("M", true)
+		enc = append(enc, m...)
+	} else {
+		enc = append(enc, 0)
+	}
+	z := int64(verifSmall("z"))
+	enc = append(enc, refZZ(z)...)
+	var full verifC04Full
+	r := NewReadBuf(enc)
+	err = cfull.Read(r, unsafe.Pointer(&full))
+	verifAssert(err == nil && r.Len() == 0, "C03:read-ok")
+	if err == nil {
+		verifAssert(len(full.F) == na && len(full.M) == nm && full.Z == z, "C03:decoded-value-is-the-datum")
+	}
+	var tail verifC04Tail
+	r2 := NewReadBuf(enc)
+	err = ctail.Read(r2, unsafe.Pointer(&tail))
+	verifAssert(err == nil, "C04:skip-ok")
+	if err == nil {
+		verifAssert(r2.Len() == 0, "C04:skip-consumes-all")
+		verifAssert(tail.Z == z, "C04:remaining-field-unchanged-by-projection")
+	}
+	verifKeepAlive(r)
+	verifReach("end")
+}
